@@ -1045,7 +1045,20 @@ class CSym(object):
                     else:
                         vals[f] = Undef(f)
                 return Struct(sname, vals)
+        if isinstance(v, Ptr) and "*" in ty and ty.replace("const ", "").replace("unsigned ", "").replace(" ", "") in ("char*", "uint8_t*") \
+                and v.arr.kind in ("double", "complex", "int"):
+            # (char *)p: the same memory addressed in bytes — a companion byte array; offsets scale by the element size
+            esz = {"double": 8, "complex": 16, "int": 4}[v.arr.kind]
+            if not hasattr(v.arr, "byte_view"):
+                bv_ = Arr(v.arr.name + ".bytes", "char", None if v.arr.extent is None else tm.lift(v.arr.extent) * esz, private=v.arr.private, origin=v.arr.origin)
+                bv_.byte_parent, bv_.elem_size = v.arr, esz
+                v.arr.byte_view = bv_
+            return Ptr(v.arr.byte_view, tm.lift(v.off) * esz)
         if isinstance(v, Ptr) and "*" in ty:
+            if "_Complex" in ty and v.arr.kind in ("raw", "void", "double") and tm.lift(v.off) is tm.ZERO and not any(e.arr is v.arr for e in self.events):
+                # (double complex *)p at the start of an array nothing has touched yet: the array is addressed in complex elements from here on
+                v.arr.kind = "complex"
+                return v
             kind = "double" if "double" in ty else "int" if "int" in ty else v.arr.kind
             if v.arr.kind in ("raw", "void"):
                 v.arr.kind = kind
@@ -1539,6 +1552,8 @@ class CSym(object):
             return self.max_threads
         if name == "dgemm_":
             return self.dgemm(args)
+        if name in ("memcpy", "memmove"):
+            return self.memcpy(args)
         tu2, f = self.find_function(name)
         if f is None:
             raise CUnsupported("call of external function %s without a contract" % name)
@@ -1549,6 +1564,57 @@ class CSym(object):
                 raise CUnsupported("address of a scalar passed to %s" % name)
             env2[pn] = a
         return self.call_body(tu2, f, env2)
+
+    def memcpy(self, args):
+        """memcpy(dst, src, nbytes) between two arrays of one element type: element k of the source window is copied to element k of the destination window
+        for 0 <= k < nbytes / sizeof(element) (a quantified copy event; byte counts that are not a multiple of the element size are outside the subset)."""
+        dst, src, nbytes = args[0], args[1], args[2]
+        if not (isinstance(dst, Ptr) and isinstance(src, Ptr)):
+            raise CUnsupported("memcpy between objects that are not arrays")
+        kinds = {"complex": 16, "double": 8, "int": 4, "char": 1}
+        kd, ks = dst.arr.kind, src.arr.kind
+        if kd in ("raw", "void") and ks in kinds:
+            dst.arr.kind = kd = ks
+        if ks in ("raw", "void") and kd in kinds:
+            src.arr.kind = ks = kd
+        if kd != ks or kd not in kinds:
+            raise CUnsupported("memcpy between arrays of different / unknown element types (%s, %s)" % (kd, ks))
+        if isinstance(nbytes, tuple) and nbytes and nbytes[0] == "sizeof":
+            nbytes = _sizeof(nbytes[1])
+        nb = tm.lift(as_int(nbytes))
+        try:
+            count = self.nf.rf_to_term(self.nf.nf(nb * Q(1, kinds[kd])))
+        except NFError:
+            # a conditional element count (len = cond ? a : b): divide the branches
+            def div_(u):
+                if u.op == "ite":
+                    return tm.mk_ite(u.args[0], div_(u.args[1]), div_(u.args[2]))
+                try:
+                    return self.nf.rf_to_term(self.nf.nf(u * Q(1, kinds[kd])))
+                except NFError:
+                    raise CUnsupported("memcpy byte count")
+            factors = list(nb.args) if nb.op == "*" else [nb]
+            ites = [f for f in factors if f.op == "ite"]
+            if len(ites) == 1:
+                rest = tm.mk_mul(*[f for f in factors if f is not ites[0]]) if len(factors) > 1 else tm.ONE
+                count = div_(tm.mk_ite(ites[0].args[0], ites[0].args[1] * rest, ites[0].args[2] * rest))
+            else:
+                raise CUnsupported("memcpy byte count")
+        if not _is_int_term(count):
+            raise CUnsupported("memcpy byte count %s is not a whole number of elements" % tm.show(nb, 40))
+        if self.dry:
+            return dst
+        k = fresh("mc")
+        self.qvars.append((k, tm.ZERO, count, tm.ONE))
+        g = [tm.mk_le(tm.ZERO, k), tm.mk_lt(k, count)]
+        self.guards.extend(g)
+        try:
+            v = self.read(Ptr(src.arr, src.off + k))
+            self.store(Ptr(dst.arr, dst.off + k), "=", v)
+        finally:
+            del self.guards[len(self.guards) - len(g):]
+            self.qvars.pop()
+        return dst
 
     def dgemm(self, args):
         def val(a):
